@@ -30,6 +30,9 @@ def configs(tier, seed):
   # connections whose set-up failed part-way (a socket option refused, the peer already gone, a logging error): twisted
   # logs the error and may keep delivering data to the half-initialised protocol - it must not unpickle with anything
   # but the safe unpickler (failing outright is fine)
+  # the same routes in an interpreter started with -O / -OO (asserts and docstrings compiled away)
+  cfgs.append(dict(name='routes/python-O', mode='routes', pyopt=1))
+  cfgs.append(dict(name='routes/python-OO', mode='routes', pyopt=2))
   for i, fault in enumerate(['getPeer', 'setTcpKeepAlive', 'idle-timeout', 'log']):
     cfgs.append(dict(name='setup-fault/%s' % fault, mode='routes', setup_fault=fault))
   # the setting itself, spelled in every way a carbon.conf may say "off" (or fail to): the daemon must either refuse to
